@@ -488,8 +488,9 @@ def run_session(case):
             z = py7zr.SevenZipFile(dest, "w", filters=arch.CHAINS[case["chain"]], dereference=case["deref"])
             if not case.get("enc", True):
                 z.set_encoded_header_mode(False)   # the LZMA coder of the encoded header costs 16 ms per close
-            if case["close"] == "ctx":
+            if case["close"] in ("ctx", "ctx-exc"):
                 z.__enter__()
+            last_exc = None
             for fn in calls:
                 try:
                     fn(z)
@@ -500,10 +501,16 @@ def run_session(case):
                 except BaseException as e:  # noqa  (the injected BaseException subclass included)
                     obs["outs"].append(type(e).__name__)
                     obs["msgs"].append(str(e)[:120])
+                    last_exc = e
             obs["state"] = observe_state(z)
             try:
                 if case["close"] == "ctx":
                     z.__exit__(None, None, None)
+                elif case["close"] == "ctx-exc":
+                    if last_exc is not None:
+                        z.__exit__(type(last_exc), last_exc, last_exc.__traceback__)
+                    else:
+                        z.__exit__(None, None, None)
                 else:
                     z.close()
                 obs["close"] = "ok"
@@ -701,9 +708,15 @@ def enumerate_cases(tier):
                     deref = not deref
                     if not applicable(shapes, at, f, deref):
                         continue
-                yield {"shapes": list(shapes), "at": at, "fault": f, "deref": deref, "close": ("ctx", "explicit")[idx % 2],
-                       "target": ("bytesio", "path")[(idx // 2) % 2], "chain": chains[(idx // 4) % len(chains)],
-                       "enc": idx % 7 == 0}
+                c = {"shapes": list(shapes), "at": at, "fault": f, "deref": deref, "close": ("ctx", "explicit")[idx % 2],
+                     "target": ("bytesio", "path")[(idx // 2) % 2], "chain": chains[(idx // 4) % len(chains)],
+                     "enc": idx % 7 == 0}
+                if f is not None and idx % 5 == 0:
+                    # the failed call's exception leaves the with-block: no later call is made, __exit__ gets the exception and
+                    # must still finalise the archive with what was written before (the same history ends at the failing call)
+                    c["shapes"] = c["shapes"][:at + 1]
+                    c["close"] = "ctx-exc"
+                yield c
 
 
 def case_key(c):
